@@ -100,6 +100,10 @@ def c07_cases(rng, nbatches, batch, silent):
             sc = {"kind": kind, "drops": drops if proto == "udp" else 0, "ttl": 0, "delay_ms": rng.choice([100, 400, 900])}
             if rng.random() < 0.15:
                 sc["tcp_kind"] = "hold"
+            if rng.random() < 0.08:
+                # the upstream hangs up on the TCP connection (with or without the beginning of a reply): everybody waiting
+                # on that connection gets a server failure, and the next query opens a new connection
+                kind, sc = "close", {"kind": "tc", "drops": 0, "ttl": 0, "tcp_kind": rng.choice(["close", "halfclose"])}
             scripts[tok(name)] = sc
             # worst case wait: 3 dropped transmissions = 0.8 + ~2 + ~5 s of timers (+ jitter)
             wait = 4000 + (0 if drops == 0 else 2500 if drops == 1 else 9000 if drops == 2 else 26000)
@@ -115,6 +119,13 @@ def c07_cases(rng, nbatches, batch, silent):
                 name = [ids.uniq(), "silent", "example"]
                 scripts[tok(name)] = {"kind": "silent", "tcp_kind": "silent"}
                 queries.append(q(ids, k, name, proto="udp", listener=rng.choice(["v4", "dual6"]), upkind="silent", wait_ms=58000))
+        # several queries on one client TCP connection, frames back to back or chopped into pieces that straddle them
+        for pipe, chop in ((1, 0), (2, 1), (3, 7), (4, 64)):
+            for _ in range(rng.choice([2, 3, 5])):
+                name = [ids.uniq(), "pipe", "example"]
+                kind = rng.choice(["ok", "ok", "late", "dup"])
+                scripts[tok(name)] = {"kind": kind, "drops": 0, "ttl": 0, "delay_ms": rng.choice([50, 300])}
+                queries.append(q(ids, len(queries) + 1, name, proto="tcp", listener="dual4", upkind=kind, drops=0, wait_ms=6000, adv=1232, pipe=pipe, chop=chop))
         # a held TCP reply is released by the next query on the connection: close every batch with a plain TCP query
         name = [ids.uniq(), "flush", "example"]
         queries.append(q(ids, len(queries) + 1, name, proto="tcp", wave=1))
@@ -203,6 +214,14 @@ def c04_cases(rng, n):
             scripts[tok(name)] = sc
             queries.append(q(ids, k, name, proto=rng.choice(["udp", "tcp"]), adv=adv, upkind=sc["kind"], listener=rng.choice(["dual4", "v6"]), wait_ms=5000))
         cases.append({"routes": [{"suffixes": [""], "kind": "forward", "up": 1 + ci % 6}], "acls": None, "scripts": scripts, "queries": queries, "meta": {"kind": "c04"}})
+    # the same reply (one address + three 200-octet records, ~700 octets) against every advertised size around its own
+    # size: each octet of the limit between "all but one record fit", "everything but the OPT record fits" and "all fits"
+    scripts, queries = {}, []
+    for k, adv in enumerate(range(560, 760), 1):
+        name = ["b%03d" % k, "c04", "example"]
+        scripts[tok(name)] = {"kind": "ok", "size": 600, "ttl": 0}
+        queries.append(q(ids, k, name, proto="udp", adv=adv, upkind="ok", listener="v4", wait_ms=5000))
+    cases.append({"routes": [{"suffixes": [""], "kind": "forward", "up": 2}], "acls": None, "scripts": scripts, "queries": queries, "meta": {"kind": "c04-sweep"}})
     return cases
 
 
